@@ -46,6 +46,8 @@ FIXED = [
  ("C09", "C09-zero-filled-long-cassette-opened-as-disk", "sniff_long", "a 185,865-byte cassette of zero-filled files re-opens as a disk; --to_cas --append is refused"),
  ("C10", "C10-raw-binary-overwritten-by-cas-append", "sniff_raw", "assembler.py --to_cas raw.bin --append replaces a raw binary with a cassette image"),
  ("C16", "C16-files-filter-lower-case-name", "filter", "file_util --files alpha selects nothing from a tape whose file is named alpha"),
+ ("C19", "C19-missing-include-traceback", "include", "assembler.py ends in a FileNotFoundError traceback when an included file is missing"),
+ ("C19", "C19-include-cycle-recursion", "include", "assembler.py ends in RecursionError on an inclusion cycle"),
  ("C15", "C15-granule-27-unreachable", "g27", "the 68th one-granule file is refused on an otherwise empty disk: granule 27 is missing from the fill order"),
  ("C07", "C07-long-name", "name", "a file with a 12-character name cannot be listed after it is stored (directory entry shifted)"),
  ("C08", "C08-trailer-spill-track17", "writer", "trailer of a file whose chain is 33->34 is written into track 17 sector 1 instead of granule 34"),
